@@ -697,4 +697,105 @@ func Run(a hc.Args) {
 
 	// ------------------------------------------------------------ (b) block store
 	runBlockStore(a, rc, scratch, nDB)
+
+	// ------------------------------------------------------------ (c) large databases
+	runLarge(a, rc, scratch)
+}
+
+// runLarge: databases whose index is larger than common buffer sizes (several hundred records): every
+// written key is read back after reopening, and absent keys below / between / above are looked up.
+// Keys are the integers 1000 + 3*i (4 characters); the trace uses the integer as `k`.
+func runLarge(a hc.Args, rc *rec.Recorder, scratch string) {
+	sizes := []int{330, 700}
+	if a.Tier == "thorough" {
+		sizes = append(sizes, 57, 1500, 2500)
+	}
+	for j, n := range sizes {
+		id := rc.TraceID + 1
+		if a.Only != 0 && a.Only != id {
+			rc.TraceID = id
+			continue
+		}
+		r := hc.TraceRand(a.Seed, 900000+id)
+		compress, hdr := j%2 == 1, j%3 != 2
+		rc.Reset(rec.M{"family": "blockdb", "kind": "large", "id": id, "seed": a.Seed, "n": n}, rec.M{"mode": "blockdb"})
+		rc.Emit(rec.M{"ev": "BNew", "keys": []int{n}, "compress": compress, "hdr": hdr}, "db-large", false)
+		file := filepath.Join(scratch, fmt.Sprintf("large-%d", id))
+		db, err := bdb.NewBlockDB(file, keyLen, compress)
+		if err != nil {
+			rec.Fatal("large: %v", err)
+		}
+		if err := db.Create(); err != nil {
+			rec.Fatal("large: %v", err)
+		}
+		if hdr {
+			db.SetDBHeader(&Hdr{Note: "verif-large", Count: n})
+		}
+		keyS := func(k int) string { return fmt.Sprintf("%04d", k) }
+		var keys []int
+		for i := 0; i < n; i++ {
+			keys = append(keys, 1000+3*i)
+		}
+		r.Shuffle(len(keys), func(x, y int) { keys[x], keys[y] = keys[y], keys[x] })
+		for _, k := range keys {
+			pl := make([]byte, r.Intn(40))
+			r.Read(pl)
+			res := guardS(func() error { return db.WriteData(&Rec{ID: keyS(k), Ver: 1, Payload: pl}) })
+			rc.Emit(rec.M{"ev": "BWrite", "k": k, "ver": 1, "sum": sum(pl), "res": res}, "large/"+res, true)
+		}
+		sres := guardS(func() error { return db.Save() })
+		rc.Emit(rec.M{"ev": "BSave", "res": sres}, "large/"+sres, true)
+		// reopen with a fresh object, as a restarted sharder would
+		db2, err := bdb.NewBlockDB(file, keyLen, compress)
+		if err != nil {
+			rec.Fatal("large: %v", err)
+		}
+		if hdr {
+			db2.SetDBHeader(&Hdr{})
+		}
+		ores := guardS(func() error { return db2.Open() })
+		rc.Emit(rec.M{"ev": "BOpen", "crash": "none", "cut": 0, "of": 0, "res": ores}, "large/none/"+ores, false)
+		if ores != "ok" {
+			continue
+		}
+		look := append([]int{}, keys...)
+		look = append(look, 999, 1001, 1002, 1000+3*n, 9999, 1000+3*(n/2)+1)
+		for _, k := range look {
+			type rr struct {
+				res        string
+				rk, rv, rs int
+			}
+			ch := make(chan rr, 1)
+			go func(k int) {
+				var rcd Rec
+				out := rr{rk: -1}
+				defer func() {
+					if p := recover(); p != nil {
+						out.res = "panic"
+					}
+					ch <- out
+				}()
+				switch err := db2.Read(bdb.Key(keyS(k)), &rcd); {
+				case err == nil:
+					n, _ := strconv.Atoi(rcd.ID)
+					out = rr{"ok", n, rcd.Ver, sum(rcd.Payload)}
+				case err == bdb.ErrKeyNotFound:
+					out.res = "notfound"
+				default:
+					out.res = "error"
+				}
+			}(k)
+			var got rr
+			select {
+			case got = <-ch:
+			case <-time.After(20 * time.Second):
+				got = rr{res: "hang", rk: -1}
+			}
+			rc.Emit(rec.M{"ev": "BRead", "k": k, "res": got.res, "rk": got.rk, "rver": got.rv, "rsum": got.rs}, "large/read/"+got.res, false)
+			if got.res == "hang" {
+				break
+			}
+		}
+		db2.Close()
+	}
 }
